@@ -28,6 +28,7 @@ OutOf(r) == [ban |-> ToSet(r.out.ban), drop |-> ToSet(r.out.drop),
              sent |-> {m \in ToSet(r.out.sent) : m.kind \in LcKinds}]
 
 CpReqOf(r) == {<<m.to, m.start>> : m \in {x \in ToSet(r.out.sent) : x.kind = "GetBlockFilterCheckPoints"}}
+ReqOf(r, kind) == {<<m.to, m.start>> : m \in {x \in ToSet(r.out.sent) : x.kind = kind}}
 MmemOf(st) == {<<e[1], e[2], e[3]>> : e \in ToSet(st.mmem)}
 
 LoadPs(r) ==
@@ -175,9 +176,14 @@ Step(r) ==
                                 /\ (over' # over => PrintT(<<"KNOWN-FINDING", "KF-C09-rollback-number", over'>>))
       [] r.ev = "Restart"    -> Restart /\ PersistentUnchanged /\ mmem' = {} /\ fetchH' = {} /\ fetchT' = {}
       [] r.ev = "SetScripts" -> SetScripts(r.a.cmd, r.a.list)
-      [] r.ev = "FilterTick" -> IF r.a.token = 0 THEN FilterTick0
-                                ELSE /\ UNCHANGED psCore /\ PipeUnchanged
-                                     /\ r.a.token = 2 => CpReqOf(r) = CheckPointTickAsks
+      [] r.ev = "FilterTick" -> /\ IF r.a.token = 0 THEN FilterTick0 ELSE UNCHANGED psCore /\ PipeUnchanged
+                                \* what each tick asks for, and of whom
+                                /\ r.a.token = 2 => CpReqOf(r) = CheckPointTickAsks
+                                /\ r.a.token = 1 => /\ cached' = Recache(cached, minF)
+                                                    /\ ReqOf(r, "GetBlockFilterHashes") \in HashesTickAsks
+                                /\ r.a.token = 0 => /\ cached' = cached
+                                                    /\ ReqOf(r, "GetBlockFilters") \in FiltersTickAsks(r.a.elapsed)
+                                /\ r.a.token = 2 => cached' = cached
       [] r.ev \in {"IdleTick", "NoAnswer"} -> UNCHANGED psCore /\ PipeUnchanged
       [] r.ev = "FetchTick"  -> FetchTick
       [] r.ev = "FetchTx"    -> RpcFetchTx(r.a.t, r.a.status, r.a.blk) /\ WrongBlockNote(r.a)
